@@ -25,6 +25,7 @@ TermTime == Cfg.term
 
 VARIABLES msg, hist, base, ckpt, owner, rb, cpos, cheld, termT, gvtSeen, gvtCnt, gvtVals, finiLp, finiQ, votes,
           stopped, exited, hand, voted, maxDecl, mustVote, announced, net, rx, lastNm, early,
+          div,     \* conformance divergences from the strict reference (count, first one): reported, never an alarm
           l,       \* next trace line
           bad,     \* failed checks of the step that failed first
           expect   \* thr -> message that the thread must re-insert next (0: none)
@@ -34,7 +35,29 @@ TW == INSTANCE TimeWarp WITH Threads <- ThreadsC, NLp <- NLpC, Inf <- InfC
 twvars == <<msg, hist, base, ckpt, owner, rb, cpos, cheld, termT, gvtSeen, gvtCnt, gvtVals, finiLp, finiQ, votes,
             stopped, exited, hand, voted, maxDecl, mustVote, announced, net, rx, lastNm, early>>
 tvars == <<msg, hist, base, ckpt, owner, rb, cpos, cheld, termT, gvtSeen, gvtCnt, gvtVals, finiLp, finiQ, votes,
-           stopped, exited, hand, voted, maxDecl, mustVote, announced, net, rx, lastNm, early, l, bad, expect>>
+           stopped, exited, hand, voted, maxDecl, mustVote, announced, net, rx, lastNm, early, l, bad, expect, div>>
+
+(***************************************************************************)
+(* Strict reference layer: what the code is expected to choose (index      *)
+(* arithmetic of match_straggler_msg / match_anti_msg, newest checkpoint   *)
+(* not after the rollback point, fossil_lp_collect, content order of the   *)
+(* queue).  A difference is counted in `div' and reported in the evidence; *)
+(* it never produces a verdict (a different but correct choice is legal).  *)
+(***************************************************************************)
+MD == INSTANCE Model
+EvR(e) == [t |-> e.t, ty |-> e.ty, pid |-> e.pid]
+MsgEv(m) == [t |-> msg[m].t, ty |-> msg[m].ty, pid |-> msg[m].pid]
+RECURSIVE RefMS(_, _, _)
+RefMS(p, m, i) == IF i = 0 THEN 0 ELSE LET e == hist[p][i] IN IF e.k # "e" \/ MD!EvBefore(MsgEv(m), EvR(e)) THEN RefMS(p, m, i - 1) ELSE i
+RefMatchStraggler(p, m) == RefMS(p, m, Len(hist[p]) - 1)
+RECURSIVE RefMA(_, _)
+RefMA(p, i) == IF i = 0 THEN 0 ELSE IF hist[p][i].k = "e" THEN i ELSE RefMA(p, i - 1)
+RefMatchAnti(p, m) == IF TW!IdxOf(p, "e", m) = {} THEN -1 ELSE RefMA(p, (CHOOSE x \in TW!IdxOf(p, "e", m) : TRUE) - 1)
+RefNewestRef(p, past) == LET ok == {k \in 1..Len(ckpt[p]) : ckpt[p][k].ref <= past} IN IF ok = {} THEN -1 ELSE ckpt[p][TW!Max(ok)].ref
+RECURSIVE RefLastBelow(_, _, _)
+RefLastBelow(p, i, g) == IF i = 0 THEN 0 ELSE IF hist[p][i].k = "e" /\ hist[p][i].t < g THEN i ELSE RefLastBelow(p, i - 1, g)
+RefFossilN(p, g) == LET n0 == RefLastBelow(p, Len(hist[p]), g) IN IF n0 = 0 THEN 0 ELSE RefNewestRef(p, n0)
+Diverge(cond, what) == IF cond THEN div ELSE [n |-> div.n + 1, first |-> IF div.n = 0 THEN [w |-> what, at |-> l] ELSE div.first]
 
 \* sequential delivery history of every LP (LP_INIT excluded)
 Ref == [p \in TW!LpSet |-> SelectSeq(RefLog, LAMBDA x : x.e = "Disp" /\ x.lp = p /\ x.ty # 65534)]
@@ -53,9 +76,10 @@ Step(cs, A) ==
 Known(m) == <<m > 0, "DIV", "line refers to a buffer the harness never saw allocated">>
 Ghost == [s |-> Line.s, cnt |-> Line.cnt, a |-> Line.dgA, b |-> Line.dgB, blk |-> Line.blk]
 
-TInit == TW!Init /\ l = 1 /\ bad = <<>> /\ expect = [r \in ThreadsC |-> 0] /\ TLCSet(1, 0) /\ TLCSet(2, <<>>)
+TInit == TW!Init /\ l = 1 /\ bad = <<>> /\ expect = [r \in ThreadsC |-> 0] /\ div = [n |-> 0, first |-> [w |-> "", at |-> 0]]
+         /\ TLCSet(1, 0) /\ TLCSet(2, <<>>) /\ TLCSet(3, <<>>)
 
-TConfig == IsEvent("Config") /\ UNCHANGED <<twvars, bad, expect>>
+TConfig == IsEvent("Config") /\ UNCHANGED <<twvars, bad, expect, div>>
 \* several executions of the same model concatenated in one trace file: start again from the initial state
 TReset ==
   /\ IsEvent("Reset")
@@ -67,19 +91,19 @@ TReset ==
   /\ voted' = [r \in ThreadsC |-> FALSE] /\ maxDecl' = [r \in ThreadsC |-> 0] /\ mustVote' = [r \in ThreadsC |-> FALSE]
   /\ announced' = FALSE /\ net' = <<>> /\ rx' = [r \in ThreadsC |-> TW!NoRx]
   /\ lastNm' = [r \in ThreadsC |-> [nm |-> 0, kind |-> "none", id |-> 0, sq |-> 0]] /\ early' = [p \in TW!LpSet |-> {}]
-  /\ expect' = [r \in ThreadsC |-> 0] /\ bad' = <<>>
+  /\ expect' = [r \in ThreadsC |-> 0] /\ bad' = <<>> /\ UNCHANGED div
 
 Skippable == {"BarArrive", "BarLeave", "GvtStart", "GvtInitiate", "TPhase", "NPhase", "DrainStage", "ModelFini",
               "CollPost", "CollDone"}
-TSkip == l <= Len(TraceLog) /\ bad = <<>> /\ Line.e \in Skippable /\ l' = l + 1 /\ UNCHANGED <<twvars, bad, expect>>
+TSkip == l <= Len(TraceLog) /\ bad = <<>> /\ Line.e \in Skippable /\ l' = l + 1 /\ UNCHANGED <<twvars, bad, expect, div>>
 
-TAlloc == IsEvent("Alloc") /\ Step(<<Known(Line.m)>> \o TW!AllocChecks(R, Line.m), TW!Alloc(R, Line.m)) /\ UNCHANGED expect
+TAlloc == IsEvent("Alloc") /\ Step(<<Known(Line.m)>> \o TW!AllocChecks(R, Line.m), TW!Alloc(R, Line.m)) /\ UNCHANGED <<expect, div>>
 
 TLpInit ==
   /\ IsEvent("LpInit")
   /\ Step(TW!LpInitChecks(R, Line.lp, Line.m) \o << <<Line.size = Line.calc, "C11", "checkpoint size accounting differs after LP_INIT">> >>,
           TW!LpInit(R, Line.lp, Line.m, Ghost, Line.pred = 1))
-  /\ UNCHANGED expect
+  /\ UNCHANGED <<expect, div>>
 
 Content == [lp |-> Line.d, t |-> Line.t, ty |-> Line.ty, pid |-> Line.pid]
 TPush ==
@@ -87,7 +111,7 @@ TPush ==
   /\ Step(<<Known(Line.m)>> \o TW!PushChecks(R, Line.m, Line.q, Content)
           \o << <<expect[R] \in {0, Line.m}, "C06", "thread re-inserted a different message than the one it had to">> >>,
           TW!Push(R, Line.m, Line.q, Content))
-  /\ expect' = [expect EXCEPT ![R] = 0]
+  /\ expect' = [expect EXCEPT ![R] = 0] /\ UNCHANGED div
 
 NoExpect == <<expect[R] = 0, "C06", "a message that had to be re-inserted into a queue was dropped">>
 
@@ -96,60 +120,79 @@ TSend ==
   /\ IF Line.rem = 1
      THEN Step(<<Known(Line.m), NoExpect>> \o TW!SendRemoteChecks(R, Line.lp, Line.m, Content), TW!SendRemote(R, Line.lp, Line.m, Content))
      ELSE Step(<<Known(Line.m), NoExpect>> \o TW!SendChecks(R, Line.lp, Line.m), TW!Send(R, Line.lp, Line.m))
-  /\ UNCHANGED expect
+  /\ UNCHANGED <<expect, div>>
 NetRec == [kind |-> Line.kind, t |-> Line.t, id |-> Line.id, sq |-> Line.sq, src |-> R, nm |-> Line.nm]
-TNetSend == IsEvent("NetSend") /\ Step(TW!NetSendChecks(R, Line.nm, NetRec), TW!NetSend(R, Line.nm, NetRec)) /\ UNCHANGED expect
-TNetRecv == IsEvent("NetRecv") /\ Step(TW!NetRecvChecks(R, Line.nm), TW!NetRecv(R, Line.nm)) /\ UNCHANGED expect
-TAntiRemote == IsEvent("AntiRemote") /\ Step(<<Known(Line.m), NoExpect>> \o TW!AntiRemoteChecks(R, Line.m), TW!AntiRemote(R, Line.m)) /\ UNCHANGED expect
-TFreeAtGvt == IsEvent("FreeAtGvt") /\ Step(TW!FreeAtGvtChecks(R, Line.m), TW!FreeAtGvt(R, Line.m)) /\ UNCHANGED expect
-TEarlyStore == IsEvent("EarlyStore") /\ Step(<<Known(Line.am)>> \o TW!EarlyStoreChecks(R, Line.lp, Line.am), TW!EarlyStore(R, Line.lp, Line.am)) /\ UNCHANGED expect
-TEarlyMatch == IsEvent("EarlyMatch") /\ Step(<<Known(Line.m), Known(Line.am)>> \o TW!EarlyMatchChecks(R, Line.lp, Line.m, Line.am), TW!EarlyMatch(R, Line.lp, Line.m, Line.am)) /\ UNCHANGED expect
+TNetSend == IsEvent("NetSend") /\ Step(TW!NetSendChecks(R, Line.nm, NetRec), TW!NetSend(R, Line.nm, NetRec)) /\ UNCHANGED <<expect, div>>
+TNetRecv == IsEvent("NetRecv") /\ Step(TW!NetRecvChecks(R, Line.nm), TW!NetRecv(R, Line.nm)) /\ UNCHANGED <<expect, div>>
+TAntiRemote == IsEvent("AntiRemote") /\ Step(<<Known(Line.m), NoExpect>> \o TW!AntiRemoteChecks(R, Line.m), TW!AntiRemote(R, Line.m)) /\ UNCHANGED <<expect, div>>
+TFreeAtGvt == IsEvent("FreeAtGvt") /\ Step(TW!FreeAtGvtChecks(R, Line.m), TW!FreeAtGvt(R, Line.m)) /\ UNCHANGED <<expect, div>>
+TEarlyStore == IsEvent("EarlyStore") /\ Step(<<Known(Line.am)>> \o TW!EarlyStoreChecks(R, Line.lp, Line.am), TW!EarlyStore(R, Line.lp, Line.am)) /\ UNCHANGED <<expect, div>>
+TEarlyMatch == IsEvent("EarlyMatch") /\ Step(<<Known(Line.m), Known(Line.am)>> \o TW!EarlyMatchChecks(R, Line.lp, Line.m, Line.am), TW!EarlyMatch(R, Line.lp, Line.m, Line.am)) /\ UNCHANGED <<expect, div>>
 TRAntiMatch ==
   /\ IsEvent("RAntiMatch")
   /\ Step(<<Known(Line.m), Known(Line.am)>> \o TW!RAntiMatchChecks(R, Line.lp, Line.m, Line.am, Line.past), TW!RAntiMatch(R, Line.lp, Line.m, Line.am, Line.past))
+  /\ UNCHANGED <<expect, div>>
+TDrain == IsEvent("Drain") /\ Step(TW!DrainChecks(R, Line.k), TW!Drain(R, Line.k)) /\ UNCHANGED <<expect, div>>
+TExtract ==
+  /\ IsEvent("Extract")
+  /\ Step(<<Known(Line.m), NoExpect, TW!NoPendingVote(R)>> \o TW!ExtractChecks(R, Line.m), TW!Extract(R, Line.m))
   /\ UNCHANGED expect
-TDrain == IsEvent("Drain") /\ Step(TW!DrainChecks(R, Line.k), TW!Drain(R, Line.k)) /\ UNCHANGED expect
-TExtract == IsEvent("Extract") /\ Step(<<Known(Line.m), NoExpect, TW!NoPendingVote(R)>> \o TW!ExtractChecks(R, Line.m), TW!Extract(R, Line.m)) /\ UNCHANGED expect
+  \* strict: among equal timestamps the queue order is anti-messages first, then the content order
+  /\ div' = IF ~TW!Live(Line.m) THEN div
+            \* (only among events that are not cancelled: the heap position of an entry is not revised when its flag changes)
+            ELSE Diverge(TW!HasAnti(msg[Line.m].flags) \/
+                         \A x \in TW!HeapOf(R) : ~(msg[x].t = msg[Line.m].t /\ ~TW!HasAnti(msg[x].flags)
+                                                     /\ msg[x].ty # -1 /\ MD!EvBefore(MsgEv(x), MsgEv(Line.m))),
+                         "extracted event is not first in the content order among the events with its timestamp")
 
 FlagsAgree(m, old) == <<TW!Live(m) => msg[m].flags = old, "DIV", "flag word read by the code differs from the reconstructed one">>
 
 TFlag ==
   /\ IsEvent("Flag")
   /\ Step(<<Known(Line.m), FlagsAgree(Line.m, Line.old)>> \o TW!FlagChecks(R, Line.m, Line.old), TW!Flag(R, Line.m, Line.old))
-  /\ UNCHANGED expect
+  /\ UNCHANGED <<expect, div>>
 
-TRbBegin == IsEvent("RbBegin") /\ Step(<<NoExpect>> \o TW!RbBeginChecks(R, Line.lp, Line.past), TW!RbBegin(R, Line.lp, Line.past)) /\ UNCHANGED expect
+TRbBegin ==
+  /\ IsEvent("RbBegin")
+  /\ Step(<<NoExpect>> \o TW!RbBeginChecks(R, Line.lp, Line.past), TW!RbBegin(R, Line.lp, Line.past))
+  /\ UNCHANGED expect
+  /\ LET m == hand[R] IN
+     div' = IF m = 0 \/ ~TW!Live(m) \/ (TW!FromNet(m) /\ TW!HasAnti(msg[m].flags)) THEN div
+            ELSE IF TW!HasAnti(msg[m].flags)
+                 THEN Diverge(Line.past = RefMatchAnti(Line.lp, m), "rollback point chosen for an anti-message differs from match_anti_msg")
+                 ELSE Diverge(Line.past = RefMatchStraggler(Line.lp, m), "rollback point chosen for a straggler differs from match_straggler_msg")
 
 TAntiLocal ==
   /\ IsEvent("AntiLocal")
   /\ IF TW!Failed(<<Known(Line.m), NoExpect, FlagsAgree(Line.m, Line.old)>> \o TW!AntiLocalChecks(R, Line.m, Line.old)) = <<>>
      THEN /\ TW!AntiLocal(R, Line.m, Line.old) /\ bad' = <<>>
-          /\ expect' = [expect EXCEPT ![R] = IF TW!AntiNeedsInsert(Line.old) THEN Line.m ELSE 0]
+          /\ expect' = [expect EXCEPT ![R] = IF TW!AntiNeedsInsert(Line.old) THEN Line.m ELSE 0] /\ UNCHANGED div
      ELSE /\ bad' = Report(<<Known(Line.m), NoExpect, FlagsAgree(Line.m, Line.old)>> \o TW!AntiLocalChecks(R, Line.m, Line.old))
-          /\ UNCHANGED <<twvars, expect>>
+          /\ UNCHANGED <<twvars, expect, div>>
 
 TUndo ==
   /\ IsEvent("Undo")
   /\ IF TW!Failed(<<Known(Line.m), NoExpect, FlagsAgree(Line.m, Line.old)>> \o TW!UndoChecks(R, Line.m, Line.old)) = <<>>
      THEN /\ TW!Undo(R, Line.m, Line.old) /\ bad' = <<>>
-          /\ expect' = [expect EXCEPT ![R] = IF TW!UndoNeedsInsert(Line.old) THEN Line.m ELSE 0]
+          /\ expect' = [expect EXCEPT ![R] = IF TW!UndoNeedsInsert(Line.old) THEN Line.m ELSE 0] /\ UNCHANGED div
      ELSE /\ bad' = Report(<<Known(Line.m), NoExpect, FlagsAgree(Line.m, Line.old)>> \o TW!UndoChecks(R, Line.m, Line.old))
-          /\ UNCHANGED <<twvars, expect>>
+          /\ UNCHANGED <<twvars, expect, div>>
 
 TRestore ==
   /\ IsEvent("Restore")
   /\ Step(<<NoExpect>> \o TW!RestoreChecks(R, Line.lp, Line.last, Line.past), TW!Restore(R, Line.lp, Line.last, Line.past))
   /\ UNCHANGED expect
+  /\ div' = Diverge(Line.last = RefNewestRef(Line.lp, Line.past), "restored checkpoint is not the newest one not after the rollback point")
 
-TRbEnd == IsEvent("RbEnd") /\ Step(TW!RbEndChecks(R, Line.lp, Ghost, Line.size, Line.calc), TW!RbEnd(R, Line.lp, Ghost)) /\ UNCHANGED expect
+TRbEnd == IsEvent("RbEnd") /\ Step(TW!RbEndChecks(R, Line.lp, Ghost, Line.size, Line.calc), TW!RbEnd(R, Line.lp, Ghost)) /\ UNCHANGED <<expect, div>>
 
 TExec ==
   /\ IsEvent("Exec")
   /\ Step(<<Known(Line.m), NoExpect>> \o TW!ExecChecks(R, Line.lp, Line.m, Line.size, Line.calc),
           TW!Exec(R, Line.lp, Line.m, Ghost, Line.pred = 1))
-  /\ UNCHANGED expect
+  /\ UNCHANGED <<expect, div>>
 
-TCkpt == IsEvent("Ckpt") /\ Step(TW!CkptChecks(R, Line.lp, Line.ref, Line.size), TW!Ckpt(R, Line.lp, Line.ref, Line.size)) /\ UNCHANGED expect
+TCkpt == IsEvent("Ckpt") /\ Step(TW!CkptChecks(R, Line.lp, Line.ref, Line.size), TW!Ckpt(R, Line.lp, Line.ref, Line.size)) /\ UNCHANGED <<expect, div>>
 
 \* C03 / C01: the j-th event released now is the (cpos+j)-th event of the sequential history,
 \* with the same content and the same resulting state
@@ -174,27 +217,28 @@ TFossil ==
           \o (IF Line.k <= Len(hist[Line.lp]) THEN CommitChecks(Line.lp, TW!CommittedOf(Line.lp, Line.k)) ELSE <<>>),
           TW!Fossil(R, Line.lp, Line.gvt, Line.k))
   /\ UNCHANGED expect
+  /\ div' = Diverge(Line.k = RefFossilN(Line.lp, Line.gvt), "number of history entries released differs from fossil_lp_collect")
 
-TFree == IsEvent("Free") /\ Step(<<Known(Line.m)>> \o TW!FreeChecks(R, Line.m), TW!Free(R, Line.m)) /\ UNCHANGED expect
+TFree == IsEvent("Free") /\ Step(<<Known(Line.m)>> \o TW!FreeChecks(R, Line.m), TW!Free(R, Line.m)) /\ UNCHANGED <<expect, div>>
 
-TTermCtrl == IsEvent("TermCtrl") /\ Step(<<>>, TW!TermCtrl) /\ UNCHANGED expect
-TGvt == IsEvent("Gvt") /\ Step(<<TW!NoPendingVote(R)>> \o (IF MultiRank THEN <<>> ELSE <<TW!Announced(R)>>) \o TW!GvtChecks(R, Line.val), TW!Gvt(R, Line.val)) /\ UNCHANGED expect
+TTermCtrl == IsEvent("TermCtrl") /\ Step(<<>>, TW!TermCtrl) /\ UNCHANGED <<expect, div>>
+TGvt == IsEvent("Gvt") /\ Step(<<TW!NoPendingVote(R)>> \o (IF MultiRank THEN <<>> ELSE <<TW!Announced(R)>>) \o TW!GvtChecks(R, Line.val), TW!Gvt(R, Line.val)) /\ UNCHANGED <<expect, div>>
 
 TTermLp ==
   /\ IsEvent("TermLp")
   /\ IF Line.init = 1
      THEN Step(<<>>, TW!TermInit(R, Line.lp, Line.term = 1))
      ELSE Step(<<>>, TW!TermLp(R, Line.lp, Line.t, Line.term = 1))
-  /\ UNCHANGED expect
-TTermUndo == IsEvent("TermUndo") /\ Step(<<>>, TW!TermUndo(R, Line.lp, Line.keep = 1)) /\ UNCHANGED expect
-TVote == IsEvent("Vote") /\ Step(TW!VoteChecks(R, Line.gvt, TermTime), TW!Vote(R, Line.gvt)) /\ UNCHANGED expect
-TStop == IsEvent("Stop") /\ Step(<<>>, TW!Stop) /\ UNCHANGED expect
-TLoopExit == IsEvent("LoopExit") /\ Step(<<NoExpect, TW!NoPendingVote(R)>> \o TW!LoopExitChecks(R, TermTime), TW!LoopExit(R)) /\ UNCHANGED expect
+  /\ UNCHANGED <<expect, div>>
+TTermUndo == IsEvent("TermUndo") /\ Step(<<>>, TW!TermUndo(R, Line.lp, Line.keep = 1)) /\ UNCHANGED <<expect, div>>
+TVote == IsEvent("Vote") /\ Step(TW!VoteChecks(R, Line.gvt, TermTime), TW!Vote(R, Line.gvt)) /\ UNCHANGED <<expect, div>>
+TStop == IsEvent("Stop") /\ Step(<<>>, TW!Stop) /\ UNCHANGED <<expect, div>>
+TLoopExit == IsEvent("LoopExit") /\ Step(<<NoExpect, TW!NoPendingVote(R)>> \o TW!LoopExitChecks(R, TermTime), TW!LoopExit(R)) /\ UNCHANGED <<expect, div>>
 
 TFiniStage ==
   /\ IsEvent("Fini")
   /\ IF Line.st = 3 THEN Step(TW!QueueFiniChecks(R), TW!QueueFini(R)) ELSE (bad' = <<>> /\ UNCHANGED twvars)
-  /\ UNCHANGED expect
+  /\ UNCHANGED <<expect, div>>
 
 \* at LP_FINI everything still held below the last GVT is committed too
 FinalCommitted(p) == SelectSeq(hist[p], LAMBDA e : e.k = "e" /\ e.ty # 65534 /\ e.t < TW!LastGvt)
@@ -205,7 +249,7 @@ TLpFini ==
           \o << <<cpos[Line.lp] + Len(FinalCommitted(Line.lp)) = RefBelow(Line.lp, TW!LastGvt),
                   "C03", "an event of the sequential history below the last GVT was never committed">> >>,
           TW!LpFini(R, Line.lp))
-  /\ UNCHANGED expect
+  /\ UNCHANGED <<expect, div>>
 
 TEnd ==
   /\ IsEvent("End")
@@ -215,7 +259,7 @@ TEnd ==
                      <<\A m \in DOMAIN msg : (msg[m].nm = 0 /\ ~msg[m].rem) => ~TW!HasAnti(msg[m].flags), "C06", "a cancelled message was never released">>,
                      <<(TW!LastGvt = InfC /\ ~stopped) => \A p \in TW!LpSet : early[p] = {}, "C06", "an early remote anti-message was never matched with the event it cancels">>,
                      <<(TW!LastGvt = InfC /\ ~stopped) => \A x \in DOMAIN net : net[x].kind = "ctrl", "C06", "an event or anti-message sent to another rank was never received">> >>)
-  /\ UNCHANGED <<twvars, expect>>
+  /\ UNCHANGED <<twvars, expect, div>>
 
 \* C08 promises a return only once a termination condition holds: every LP's predicate true on a committed state,
 \* GVT at the termination time, or RootsimStop.  A run cut by the step budget before that (e.g. unbounded
@@ -224,11 +268,11 @@ MustReturn == stopped \/ TW!LastGvt >= TermTime \/ \A p \in TW!LpSet : TW!HeldCo
 THang ==
   /\ IsEvent("Hang")
   /\ bad' = IF MustReturn THEN <<[p |-> "C08", w |-> "run does not return (deadlock or livelock): " \o Line.why, at |-> l]>> ELSE <<>>
-  /\ UNCHANGED <<twvars, expect>>
+  /\ UNCHANGED <<twvars, expect, div>>
 TCrash ==
   /\ IsEvent("Crash")
   /\ bad' = <<[p |-> "C11", w |-> "runtime crashed with signal " \o ToString(Line.sig), at |-> l]>>
-  /\ UNCHANGED <<twvars, expect>>
+  /\ UNCHANGED <<twvars, expect, div>>
 
 TNext ==
   \/ TConfig \/ TReset \/ TSkip \/ TAlloc \/ TLpInit \/ TPush \/ TSend \/ TDrain \/ TExtract \/ TFlag \/ TRbBegin \/ TAntiLocal
@@ -236,6 +280,6 @@ TNext ==
   \/ TLoopExit \/ TTermCtrl \/ TNetSend \/ TNetRecv \/ TAntiRemote \/ TFreeAtGvt \/ TEarlyStore \/ TEarlyMatch \/ TRAntiMatch \/ TFiniStage \/ TLpFini \/ TEnd \/ THang \/ TCrash
 TSpec == TInit /\ [][TNext]_tvars
 
-Progress == TLCSet(1, IF l > TLCGet(1) THEN l ELSE TLCGet(1)) /\ (bad # <<>> => TLCSet(2, bad))
-Post == PrintT(<<"RESULT", TLCGet(1) - 1, Len(TraceLog), TLCGet(2)>>)
+Progress == TLCSet(1, IF l > TLCGet(1) THEN l ELSE TLCGet(1)) /\ (bad # <<>> => TLCSet(2, bad)) /\ TLCSet(3, div)
+Post == PrintT(<<"RESULT", TLCGet(1) - 1, Len(TraceLog), TLCGet(2)>>) /\ PrintT(<<"DIVERGENCES", TLCGet(3)>>)
 =============================================================================
